@@ -103,6 +103,91 @@ let guard line =
   let evs = List.map ev_of_tok (nonempty (toks line)) in
   bool_s (no_overflow (all_ops evs))
 
+(* ---- C09: mode prof: "<D|R> a:size:align:ret z:size:align:ret r:ptr:size:align:new:ret d:ptr:size:align" ---- *)
+let lay s a = { l_size = n_of_string s; l_align = n_of_string a }
+
+let req_of_tok (t : string) : req * resp =
+  match String.split_on_char ':' t with
+  | ["a"; s; a; r] -> (RAlloc (lay s a), RespPtr (n_of_string r))
+  | ["z"; s; a; r] -> (RAllocZeroed (lay s a), RespPtr (n_of_string r))
+  | ["r"; p; s; a; n; r] -> (RRealloc (n_of_string p, lay s a, n_of_string n), RespPtr (n_of_string r))
+  | ["d"; p; s; a] -> (RDealloc (n_of_string p, lay s a), RespUnit)
+  | _ -> failwith ("bad request " ^ t)
+
+(* what the mock logs: the request without the scripted return *)
+let logged_req_of_tok (t : string) : req =
+  match String.split_on_char ':' t with
+  | ["a"; s; a] -> RAlloc (lay s a)
+  | ["z"; s; a] -> RAllocZeroed (lay s a)
+  | ["r"; p; s; a; n] -> RRealloc (n_of_string p, lay s a, n_of_string n)
+  | ["d"; p; s; a] -> RDealloc (n_of_string p, lay s a)
+  | _ -> failwith ("bad log entry " ^ t)
+
+let string_of_req = function
+  | RAlloc l -> "a:" ^ string_of_n l.l_size ^ ":" ^ string_of_n l.l_align
+  | RAllocZeroed l -> "z:" ^ string_of_n l.l_size ^ ":" ^ string_of_n l.l_align
+  | RRealloc (p, l, n) -> "r:" ^ string_of_n p ^ ":" ^ string_of_n l.l_size ^ ":" ^ string_of_n l.l_align ^ ":" ^ string_of_n n
+  | RDealloc (p, l) -> "d:" ^ string_of_n p ^ ":" ^ string_of_n l.l_size ^ ":" ^ string_of_n l.l_align
+
+let string_of_resp = function RespPtr p -> string_of_n p | RespUnit -> "-"
+
+let parse_prof line : bool * (req * resp) list =
+  match nonempty (toks line) with
+  | b :: rest -> (chk_of b, List.map req_of_tok rest)
+  | [] -> failwith "prof: empty"
+
+let prof line =
+  let (chk, rs) = parse_prof line in
+  let script = Array.of_list (List.map snd rs) in
+  (* the wrapped allocator: answers the k-th request it receives with the k-th scripted value *)
+  let inner (hist : req list) : resp = script.(List.length hist - 1) in
+  match run_prof inner chk (Some info_init) [] (List.map fst rs) with
+  | Ok ((log, rets), slot) ->
+    let tally = (match slot with Some i -> string_of_info i | None -> "none") in
+    let scripted = List.length (List.filter (fun r -> r <> RespUnit) (Array.to_list script)) in
+    let answered = List.length (List.filter (fun r -> r <> RespUnit) rets) in
+    "log=" ^ list_s string_of_req log ^ " ret=" ^ list_s string_of_resp rets
+    ^ " unused=" ^ string_of_int (scripted - answered) ^ " tally=" ^ tally
+  | Panic p -> "panic " ^ string_of_panic p
+
+let field name s =
+  let pre = name ^ "=" in
+  let l = String.length pre in
+  if String.length s >= l && String.sub s 0 l = pre then String.sub s l (String.length s - l)
+  else failwith ("missing field " ^ name)
+
+let split_commas s = if s = "" then [] else String.split_on_char ',' s
+
+let prof_why l = String.concat "," (List.map (fun n -> match int_of_n n with
+  | 1 -> "inner-calls-differ-from-requests" | 2 -> "returned-values-differ-from-inner-responses" | _ -> "?") l)
+
+let prof_check line =
+  let (c, i) = split_sb line in
+  let (_, rs) = parse_prof c in
+  let reqs = List.map fst rs and script = List.map snd rs in
+  let ops = List.map op_of_req reqs in
+  match toks i with
+  | "panic" :: _ -> verdict (not (no_overflow ops)) "panic-inside-the-no-overflow-guard"
+  | l :: r :: u :: t ->
+    (try
+      let log = List.map logged_req_of_tok (split_commas (field "log" l)) in
+      let rets = List.map (fun s -> if s = "-" then RespUnit else RespPtr (n_of_string s)) (split_commas (field "ret" r)) in
+      let tl = String.concat " " t in
+      let tally_ok = (match parse_res_info ("ok " ^ field "tally" tl) with
+                      | Some ti -> tally_sb ops ti | None -> false) in
+      let ok = prof_sb reqs script log rets in
+      if not ok then verdict false (prof_why (prof_sb_why reqs script log rets))
+      else if field "unused" u <> "0" then verdict false "scripted-responses-left-over"
+      else verdict tally_ok "tally-depends-on-something-else-than-the-requests"
+    with Failure m -> verdict false ("outcome:" ^ i))
+  | _ -> verdict false ("outcome:" ^ i)
+
+(* mode churn: the run-time part (tested, not proved): the global-allocator binary prints "equal ..." *)
+let churn _ = "equal"
+let churn_check line =
+  let (_, i) = split_sb line in
+  verdict (i = "equal") ("outcome:" ^ i)
+
 let dispatch mode line =
   match mode with
   | "tally" -> tally line
@@ -110,6 +195,10 @@ let dispatch mode line =
   | "threads" -> threads line
   | "threads.sb" -> threads_check line
   | "guard" -> guard line
+  | "prof" -> prof line
+  | "prof.sb" -> prof_check line
+  | "churn" -> churn line
+  | "churn.sb" -> churn_check line
   | _ -> failwith ("unknown mode " ^ mode)
 
 let () = main dispatch
